@@ -163,6 +163,8 @@ func IDs(res []gmsl.PDU) []string {
 
 // ResolveNew calls the current entry point with the given presentation of the inputs.
 func (b *Built) ResolveNew(version string, sets [][]gmsl.PDU, auth []gmsl.PDU) (res []gmsl.PDU, err error) {
+	// what PowerLevels() hands out belongs to the caller: scribbling over it must not change what resolution reads
+	authgen.ScribblePowerLevels(auth)
 	if p, msg := harness.Try(func() {
 		res, err = gmsl.ResolveConflictsNew(gmsl.RoomVersion(version), sets, auth, authgen.UID, b.IsRejected)
 	}); p {
